@@ -59,6 +59,8 @@ def generate(prop, seed, tier):
         spec = G.ring_chord_spec(g, 'small')
         if g.random() < 0.4:
             G.add_onehot_terminals(spec, g)
+    if g.random() < 0.05:
+        spec = G.perm_unit_spec(g, 'small')
     tight = False
     if g.random() < 0.08:
         # several independent recursive components; the iteration budget is generous for each (reference step count + 10)
